@@ -55,6 +55,7 @@ pub struct Profile {
 }
 
 const CHURN_SMALL: &[(u32, u32, u32)] = &[(1, 1, 6)];
+const CHURN_C17: &[(u32, u32, u32)] = &[(8, 1, 6), (4, 100, 300), (1, 32_766, 32_770)];
 const CHURN_C16: &[(u32, u32, u32)] = &[(10, 1, 6), (1, 32_766, 32_770)];
 const CHURN_C06: &[(u32, u32, u32)] = &[(6, 1, 6), (3, 100, 300), (3, 32_760, 32_790), (1, 65_530, 65_560), (1, 70_000, 70_000)];
 
@@ -227,6 +228,8 @@ impl Profile {
             }
             "C17" => {
                 p.name = "C17";
+                p.churn = CHURN_C17;
+                p.w_churn = 2;
                 p.w_set = 3;
                 p.w_clear = 1;
                 p.w_reserve = 1;
@@ -234,6 +237,11 @@ impl Profile {
                 p.w_probe = 2;
                 p.s_removed = 12;
                 p.deep = DeepCfg { traversals: true, dei: true, lookups: true, drain: true, pairs: false, unary: false, max_cand: 6, dei_exh_bits: 6, dei_sampled: 4, at_end: true };
+            }
+            // fuzzing profile: every oracle available, but deep checks only where the input asks for them
+            "FUZZ" => {
+                p.name = "FUZZ";
+                p.deep = DeepCfg { traversals: true, dei: true, lookups: true, drain: true, pairs: true, unary: true, max_cand: 4, dei_exh_bits: 6, dei_sampled: 2, at_end: false };
             }
             // general-purpose profile: everything on (fuzz target, C16/C17 batteries)
             "ALL" => {
